@@ -476,8 +476,8 @@ func (x *Exec) havocGhostState(st *State) {
 // functions, once / atomic / channel state (then its callers must forget
 // them), or is it frameless?
 func contractTouchesGhostState(c *FuncContract) bool {
-	if c.Options["noframe"] == "true" {
-		return true
+	if c.Options["ghost"] == "any" {
+		return true // declared: may change any ghost call/once/atomic/channel state
 	}
 	has := func(t string) bool {
 		for _, k := range []string{"calls(", "callret", "oncedone(", "atomicval(", "atomicbool(", "closedch(", "recvready("} {
